@@ -1182,10 +1182,18 @@ func (m *Manager) UnconfirmedParents(txn types.Transaction) []types.Transaction 
 			break
 		}
 	}
-	// reverse so that parents always come before children
-	for i := 0; i < len(parents)/2; i++ {
-		j := len(parents) - 1 - i
-		parents[i], parents[j] = parents[j], parents[i]
+	// return the parents in pool order. The pool is always a valid sequence
+	// (parents before children); reversing the discovery order is not when
+	// the dependencies are not a simple chain, e.g. when two parents of txn
+	// depend on each other.
+	indices := make([]int, 0, len(seen))
+	for index := range seen {
+		indices = append(indices, index)
+	}
+	slices.Sort(indices)
+	parents = parents[:0]
+	for _, index := range indices {
+		parents = append(parents, m.txpool.txns[index])
 	}
 	return parents
 }
@@ -1235,10 +1243,17 @@ func (m *Manager) V2TransactionSet(basis types.ChainIndex, txn types.V2Transacti
 			break
 		}
 	}
-	// reverse so that parents always come before children
-	for i := range len(parents) / 2 {
-		j := len(parents) - 1 - i
-		parents[i], parents[j] = parents[j], parents[i]
+	// order the parents as in the pool, which is always a valid sequence
+	// (parents before children); reversing the discovery order is not when
+	// the dependencies are not a simple chain
+	indices := make([]int, 0, len(seen))
+	for index := range seen {
+		indices = append(indices, index)
+	}
+	slices.Sort(indices)
+	parents = parents[:0]
+	for _, index := range indices {
+		parents = append(parents, m.txpool.v2txns[index].DeepCopy())
 	}
 
 	// update the transaction's basis to match tip
